@@ -518,7 +518,7 @@ def main(argv):
     if not args.replay:
         os.makedirs(os.path.join(VERIF, "evidence"), exist_ok=True)
         # runs against a scratch copy of the repository (VERIF_REPO) never touch the committed evidence
-        suffix = ".json" if "VERIF_REPO" not in os.environ else ".scratch.json"
+        suffix = ".json" if ("VERIF_REPO" not in os.environ and not args.no_build) else ".scratch.json"
         with open(os.path.join(VERIF, "evidence", pid + suffix), "w") as f:
             json.dump(ev, f, indent=1)
     for cl, d in sorted(known_hit.items()):
